@@ -151,6 +151,51 @@ def _exec_case(args):
     return idx, bad, ("ok" if err is None else type(err).__name__ + ": " + str(err)[:200]), ({k: defs.yaml_text(v) for k, v in files.items()} if bad else None)
 
 
+def _repeat_build(args):
+    """a project is built (compile(), Python output), then ONE non-root file of the closure is edited so that it conflicts, and the
+    project is built again with the same arguments: the second build reports the conflict exactly like a fresh one"""
+    idx, case, d = args
+    from pyrtma.compile import compile as rtcompile
+    from pyrtma.parser import ParserError
+    c = case["case"]
+    root = os.path.join(d, f"rb{idx}")
+    out = os.path.join(root, "build")
+    calm = json.loads(json.dumps(case))
+    calm["case"]["rel"] = "none"
+    files0, files1 = build(calm, idx), build(case, idx)
+    loc = loc_of(c["g"])
+    changed = [k for k in files1 if defs.yaml_text(files1[k]) != defs.yaml_text(files0[k])]
+    if loc["r"] in changed or not changed:
+        return idx, None
+    defs.write_prog(files0, root)
+    os.makedirs(out, exist_ok=True)
+    cwd = os.getcwd()
+
+    def go():
+        try:
+            with defs.Silence():
+                rtcompile([os.path.join(root, "r.yaml")], out, "gen", python=True, import_coredefs=False)
+            return None
+        except BaseException as e:   # noqa: BLE001
+            if isinstance(e, (KeyboardInterrupt, SystemExit)) and not isinstance(e, SystemExit):
+                raise
+            return e
+        finally:
+            os.chdir(cwd)
+    e0 = go()
+    res = None
+    if e0 is None:
+        for k in changed:
+            defs.write_prog({k: files1[k]}, root)
+        e1 = go()
+        if e1 is None:
+            res = ("C12.ConflictMissed", "second build of an edited closure reports nothing")
+        elif not isinstance(e1, ParserError) and not isinstance(e1, SystemExit):
+            res = ("C12.WrongErrorClass", type(e1).__name__)
+    shutil.rmtree(root, ignore_errors=True)
+    return idx, res
+
+
 def run(tier: str, seed: int) -> Dict[str, Any]:
     q = tier == "quick"
     rnd = random.Random(seed)
@@ -190,6 +235,21 @@ def run(tier: str, seed: int) -> Dict[str, Any]:
                 place = "same" if c["f1"] == c["f2"] else "diff"
                 viol.append({"signature": f"{cl.replace('.', '/')}/graph:{c['g']}:{c['k1']}-{c['k2']}:{c['rel']}:{place}",
                              "replay": {"kind": "case", "case": case, "files": files, "got": got}})
+        # ---- repeat builds: the conflict is introduced by editing a non-root file of a project that was built before ----
+        rb = [c for c in sample if not c["ok"] and not c["samekey"] and c["case"]["f2"] != "r" and c["case"]["f2"] in c["reached"] and c["case"]["f1"] in c["reached"]
+              and c["case"]["f1"] != c["case"]["f2"]]
+        rb = rnd.sample(rb, min(len(rb), 60 if q else 600))
+        with mp.get_context("fork").Pool(12) as pool:
+            rres = pool.map(_repeat_build, [(i, c, d) for i, c in enumerate(rb)], chunksize=5)
+        nrb = 0
+        for i, res in rres:
+            if res is None:
+                continue
+            nrb += 1
+            c = rb[i]["case"]
+            viol.append({"signature": f"{res[0].replace('.', '/')}/repeat-build:graph:{c['g']}:{c['k1']}-{c['k2']}:{c['rel']}",
+                         "replay": {"kind": "repeat-build", "case": rb[i], "detail": res[1]}})
+        n += len(rb)
         # same key twice in one mapping (raw text): the loader must refuse, with a ParserError
         for sec, body in (("constants", "  P: 1\n  P: 2\n"), ("aliases", "  P: int32\n  P: int16\n"),
                           ("module_ids", "  P: 50\n  P: 51\n"), ("host_ids", "  P: 50\n  P: 51\n"),
@@ -212,19 +272,25 @@ def run(tier: str, seed: int) -> Dict[str, Any]:
             if kind == "res" and idv < 2:
                 continue        # the reservation syntax has no spelling for negative ids
             item_yaml(f, kind, "RNGX", idv, 0)
-            root = os.path.join(d, f"rg{nr}")
-            defs.write_prog({"r.yaml": f}, root)
-            p, err = defs.parse(os.path.join(root, "r.yaml"), import_coredefs=True)
-            nr += 1
-            got = "ok" if err is None else type(err).__name__
-            exp = row["out"]
-            if kind == "res" and exp == "ok" and got == "MessageIDError":
-                exp = got       # forms that reserve a neighbour id may touch a core id
-            if got != exp:
-                cl = "ConflictMissed" if got == "ok" else ("FalseConflict" if exp == "ok" else "WrongErrorClass")
-                viol.append({"signature": f"C12/{cl}/range:{kind}:{idv}:expected:{exp}:got:{got}",
-                             "replay": {"kind": "range", "row": row, "got": got, "yaml": defs.yaml_text(f)}})
-            shutil.rmtree(root, ignore_errors=True)
+            # where the file with the id lives does not matter: a plain root file, a root file in a directory that happens to be
+            # called like the package's own, an imported file there, an imported file below the root
+            for place, layout in (("root", {"r.yaml": f}), ("root-in-core_defs-dir", {"core_defs/r.yaml": f}),
+                                  ("child-in-core_defs-dir", {"r.yaml": {"imports": ["core_defs/child.yaml"]}, "core_defs/child.yaml": f}),
+                                  ("child-deeper", {"r.yaml": {"imports": ["defs/lab/child.yaml"]}, "defs/lab/child.yaml": f})):
+                root = os.path.join(d, f"rg{nr}")
+                defs.write_prog(layout, root)
+                rootfile = "core_defs/r.yaml" if place == "root-in-core_defs-dir" else "r.yaml"
+                p, err = defs.parse(os.path.join(root, rootfile), import_coredefs=True)
+                nr += 1
+                got = "ok" if err is None else type(err).__name__
+                exp = row["out"]
+                if kind == "res" and exp == "ok" and got == "MessageIDError":
+                    exp = got       # forms that reserve a neighbour id may touch a core id
+                if got != exp:
+                    cl = "ConflictMissed" if got == "ok" else ("FalseConflict" if exp == "ok" else "WrongErrorClass")
+                    viol.append({"signature": f"C12/{cl}/range:{kind}:{idv}:expected:{exp}:got:{got}" + ("" if place == "root" else ":" + place),
+                                 "replay": {"kind": "range", "row": row, "got": got, "place": place, "yaml": defs.yaml_text(f)}})
+                shutil.rmtree(root, ignore_errors=True)
     finally:
         shutil.rmtree(d, ignore_errors=True)
     cov = {"states": mc.get("distinct", 0), "transitions": mc.get("states", 0), "traces_validated_against_impl": n + nr,
